@@ -24,6 +24,9 @@ pub enum Plan {
     Pair { k1: u64, k2: u64, with_shx: bool },
     /// the files on disk, one of them truncated, opened by path: same answers as the in-memory sources
     DiskCut { shx: bool, len: usize },
+    /// n point records listed by the index in an order other than the file order (kind 0: n = 3, order [2,0,1];
+    /// kind 1: n = 40, reversed), the .shp cut to `len` bytes, the iteration going on after errors
+    PermCut { kind: u8, len: usize },
 }
 
 #[derive(Clone, Debug)]
@@ -49,6 +52,7 @@ impl Case {
             Plan::ShortRead { kind, arg } => json!({"short_read": (["uniform", "one-op-1-byte", "one-op-all-but-last"][*kind as usize]), "arg": arg}),
             Plan::Pair { k1, k2, with_shx } => json!({"pair_on_shp": [k1, k2], "with_shx": with_shx}),
             Plan::DiskCut { shx, len } => json!({"disk_cut": (if *shx { "shx" } else { "shp" }), "len": len}),
+            Plan::PermCut { kind, len } => json!({"perm_cut": kind, "len": len}),
         };
         json!({"ty": self.ty.name(), "seq": self.seq, "refcodec": self.refcodec, "gapped": self.gapped, "big": self.big, "plan": plan})
     }
@@ -62,6 +66,8 @@ impl Case {
             }
         } else if let Some(a) = p.get("pair_on_shp").and_then(|x| x.as_array()) {
             Plan::Pair { k1: a.first()?.as_u64()?, k2: a.get(1)?.as_u64()?, with_shx: p.get("with_shx")?.as_bool()? }
+        } else if let Some(k) = p.get("perm_cut").and_then(|x| x.as_u64()) {
+            Plan::PermCut { kind: k as u8, len: p.get("len")?.as_u64()? as usize }
         } else if let Some(c) = p.get("disk_cut") {
             Plan::DiskCut { shx: c.as_str()? == "shx", len: p.get("len")?.as_u64()? as usize }
         } else if let Some(d) = p.get("fault_on") {
@@ -240,6 +246,10 @@ pub fn traverse(fx: &Fixture, shp: Dev, shx: Option<Dev>) -> Vec<Ans> {
 /// ends or n + 4 calls were made, read_nth_shape(i) (call 100 + i).  Per call: what it returned
 /// (Some(Ok(record)), Some(Err), None).
 pub fn traverse_on(fx: &Fixture, shp: Dev, shx: Option<Dev>) -> Vec<(u32, Option<Result<usize, String>>)> {
+    traverse_on_n(fx, shp, shx, fx.recs.len() + 4)
+}
+
+pub fn traverse_on_n(fx: &Fixture, shp: Dev, shx: Option<Dev>, max_next: usize) -> Vec<(u32, Option<Result<usize, String>>)> {
     let n = fx.recs.len();
     let mut out = vec![];
     let set = |c: u32| {
@@ -265,7 +275,7 @@ pub fn traverse_on(fx: &Fixture, shp: Dev, shx: Option<Dev>) -> Vec<(u32, Option
     };
     {
         let mut it = r.iter_shapes();
-        for j in 0..(n + 4) as u32 {
+        for j in 0..max_next as u32 {
             set(10 + j);
             match it.next() {
                 None => {
@@ -366,6 +376,76 @@ pub fn disk_vs_memory(fx: &Fixture, cut_shx: bool, len: usize) -> (Vec<Ans>, Vec
     let _ = std::fs::remove_file(path.with_extension("shx"));
     let mem = traverse_any(fx, ShapeReader::with_shx(Dev::quiet(shp.to_vec()), Dev::quiet(shx.to_vec())), true);
     (disk, mem)
+}
+
+/// n records of type `ty` stored in file order, listed by the index in `order` (entry j -> record order[j])
+pub fn permuted_fixture(ty: Ty, kind: u8) -> (Fixture, Vec<usize>) {
+    let n = if kind == 0 { 3 } else { 40 };
+    let order: Vec<usize> = if kind == 0 { vec![2, 0, 1] } else { (0..n).rev().collect() };
+    let red = reduced_set(ty);
+    let recs: Vec<MRead> = (0..n)
+        .map(|k| {
+            let mut s = red[k % red.len()].clone();
+            for p in s.parts.iter_mut() {
+                for q in p.pts.iter_mut() {
+                    q[0] += 128.0 * (k / red.len()) as f64 + k as f64;
+                }
+            }
+            from_lib(&to_lib(&s))
+        })
+        .collect();
+    let mut body: Vec<u8> = vec![];
+    let mut offs = vec![];
+    let mut lens = vec![];
+    let mut ends = vec![];
+    for (i, r) in recs.iter().enumerate() {
+        let b = MBody::Shape { shape: r.shape.clone(), bbox: r.bbox.unwrap_or(codec::true_bbox(&r.shape)), with_m: true };
+        let mut f = vec![];
+        let content = codec::encode_content(&b, &mut f, 0, 0);
+        offs.push(100 + body.len());
+        lens.push(content.len());
+        body.extend((i as i32 + 1).to_be_bytes());
+        body.extend(((content.len() / 2) as i32).to_be_bytes());
+        body.extend(content);
+        ends.push(100 + body.len());
+    }
+    let mut shp = codec::encode_header(((100 + body.len()) / 2) as i32, ty.code(), &[0.0; 8]);
+    shp.extend(body);
+    let mut shx = codec::encode_header((50 + 4 * n) as i32, ty.code(), &[0.0; 8]);
+    for j in 0..n {
+        shx.extend(((offs[order[j]] / 2) as i32).to_be_bytes());
+        shx.extend(((lens[order[j]] / 2) as i32).to_be_bytes());
+    }
+    (Fixture { shp, shx, recs, ends }, order)
+}
+
+/// the index lists the records in `order`; the .shp is cut to `len` bytes; the iteration goes on after errors:
+/// entry j comes back as record order[j] when that record is wholly retained, as an I/O error when it is not
+pub fn perm_cut_verdicts(fx: &Fixture, order: &[usize], len: usize) -> Vec<(String, String)> {
+    let mut out = vec![];
+    let n = order.len();
+    let mut small = Fixture { shp: fx.shp.clone(), shx: fx.shx.clone(), recs: fx.recs.clone(), ends: fx.ends.clone() };
+    small.recs = fx.recs.clone();
+    let ans = traverse_on_n(&small, Dev::quiet(fx.shp[..len].to_vec()), Some(Dev::quiet(fx.shx.clone())), n + 2);
+    for j in 0..n {
+        let whole = fx.ends[order[j]] <= len;
+        for (what, call) in [("iteration", 10 + j as u32), ("read_nth_shape", 100 + j as u32)] {
+            let a = ans.iter().find(|(c, _)| *c == call).map(|x| &x.1);
+            let ok = match (whole, a) {
+                (true, Some(Some(Ok(k)))) => *k == order[j],
+                (false, Some(Some(Err(e)))) => is_io(e),
+                _ => false,
+            };
+            if !ok {
+                out.push((
+                    format!("permuted-index-cut:{}:{}", what, if whole { "retained-record-not-returned" } else { "cut-record-not-an-io-error" }),
+                    format!("{} bytes of the .shp kept; index entry {} addresses record {} ({}): {} answered {:?}", len, j, order[j], if whole { "wholly retained" } else { "cut" }, what, a),
+                ));
+                return out;
+            }
+        }
+    }
+    out
 }
 
 fn is_injected(e: &str) -> bool {
@@ -477,7 +557,7 @@ pub fn judge(case: &Case, fx: &Fixture, base: &[Ans], base_logs: (&[Op], &[Op]),
                 }
             }
         }
-        Plan::Pair { .. } | Plan::DiskCut { .. } => {}
+        Plan::Pair { .. } | Plan::DiskCut { .. } | Plan::PermCut { .. } => {}
         Plan::ShortRead { .. } => {
             if ans != base {
                 out.push(("short-read-differs".into(), format!("traversal differs from the unrestricted source: {:?} vs {:?}", ans, base)));
@@ -644,7 +724,7 @@ fn run_fixture_ext(ty: Ty, seq: &[usize], refcodec: bool, gapped: bool, big: usi
                 (if *dev == 0 { &a } else { &b }).fail_at(*k, if *persistent { FaultMode::Persistent } else { FaultMode::OneShot });
                 (a, b)
             }
-            Plan::Pair { .. } | Plan::DiskCut { .. } => unreachable!(),
+            Plan::Pair { .. } | Plan::DiskCut { .. } | Plan::PermCut { .. } => unreachable!(),
             Plan::ShortRead { kind, arg } => {
                 let (a, b) = (Dev::quiet(fx.shp.clone()), Dev::quiet(fx.shx.clone()));
                 let c = match kind {
@@ -753,6 +833,51 @@ pub fn check(tier: Tier) -> i32 {
         let (ty, seq, rc, gapped, big) = &units[b];
         run_fixture_ext(*ty, seq, *rc, *gapped, *big, ctx, tick);
     });
+    // truncations under an index that lists the records in another order than the file does
+    let (mut agg, mut capped) = (agg, capped);
+    {
+        let mut punits: Vec<(Ty, u8)> = vec![];
+        for ty in tier.pick(vec![Ty::Point, Ty::PolylineZ], vec![Ty::Point, Ty::PointZ, Ty::Multipoint, Ty::PolylineZ, Ty::PolygonM, Ty::Multipatch]) {
+            punits.push((ty, 0));
+            punits.push((ty, 1));
+        }
+        let (a, c) = par_blocks(punits.len(), deadline, |b, ctx, tick| {
+            let (ty, kind) = punits[b];
+            let (fx, order) = permuted_fixture(ty, kind);
+            let lens: Vec<usize> = if kind == 0 {
+                (100..=fx.shp.len()).collect()
+            } else {
+                let mut v: Vec<usize> = vec![100, fx.shp.len()];
+                for e in &fx.ends {
+                    v.extend([e - 1, *e, e + 1, e + 9]);
+                }
+                v.sort_unstable();
+                v.dedup();
+                v.into_iter().filter(|l| *l >= 100 && *l <= fx.shp.len()).collect()
+            };
+            for len in lens {
+                let case = Case { ty, seq: vec![], refcodec: true, gapped: false, big: 0, plan: Plan::PermCut { kind, len } };
+                let mut h = Fnv::new();
+                h.str(&case.to_json().to_string());
+                match catch(|| perm_cut_verdicts(&fx, &order, len)) {
+                    Ok(v) => {
+                        ctx.lib_calls += 2 * order.len() as u64 + 2;
+                        ctx.case_done(h.finish(), true, v.len() as u64 + 20);
+                        for (sig, d) in v {
+                            ctx.violation(format!("{}:{}", ty.name(), sig), || case.to_json(), || d);
+                        }
+                    }
+                    Err(p) => {
+                        ctx.case_done(h.finish(), true, 1);
+                        ctx.violation(format!("{}:{}", ty.name(), p.sig()), || case.to_json(), || p.msg.clone());
+                    }
+                }
+                tick();
+            }
+        });
+        agg.absorb(a);
+        capped |= c;
+    }
     let st = selftest();
     super::c01_c02::cleanup_scratch();
     finish(
@@ -761,7 +886,7 @@ pub fn check(tier: Tier) -> i32 {
             tier,
             level: "fault_enumeration",
             engine: "valid files (library-written and RefCodec-written) read by the real ShapeReader from truncated, fault-injecting and short-reading devices",
-            rule: "per file: every truncation length 0..=len of the .shp (read with the intact .shx and without index), every truncation length of the .shx, every operation index k over the reads and seeks of a full traversal (open, iterate, read_nth_shape(i) and seek(i) for all i) x {one-shot, persistent} on each source, uniform short reads c in {1,2,3,4,5,7,8,9,15,16,17} and, for every read call j, 'call j returns 1 byte' / 'len-1 bytes'; files = types x 3 sequences (1-3 records of different sizes) x {library writer, RefCodec}, plus RefCodec files with fillers in front of every record (read through the index), plus, for the library-written files of 1 and 2 records: every pair of operations of the .shp failing once each, with and without index, the iteration going on after an error (every call during which an operation failed returns an error, nothing invented), and the two files on disk with every truncation of the .shx and of the .shp opened by ShapeReader::from_path (same answers as with_shx over the same bytes in memory); plus files whose second record has a part of 1500 / 70001 points (cuts: last 48 bytes, around every power of two and every MiB, every 4099th byte; short reads); every case is non-trivial",
+            rule: "per file: every truncation length 0..=len of the .shp (read with the intact .shx and without index), every truncation length of the .shx, every operation index k over the reads and seeks of a full traversal (open, iterate, read_nth_shape(i) and seek(i) for all i) x {one-shot, persistent} on each source, uniform short reads c in {1,2,3,4,5,7,8,9,15,16,17} and, for every read call j, 'call j returns 1 byte' / 'len-1 bytes'; files = types x 3 sequences (1-3 records of different sizes) x {library writer, RefCodec}, plus RefCodec files with fillers in front of every record (read through the index), plus, for the library-written files of 1 and 2 records: every pair of operations of the .shp failing once each, with and without index, the iteration going on after an error (every call during which an operation failed returns an error, nothing invented), and the two files on disk with every truncation of the .shx and of the .shp opened by ShapeReader::from_path (same answers as with_shx over the same bytes in memory); plus files whose index lists the records in another order than the file (3 records in order [2,0,1] at every truncation length; 40 records reversed, cut around every record end), the iteration going on after errors: every entry whose record is wholly retained comes back as that record, every other as an I/O error, by iteration and by random access; plus files whose second record has a part of 1500 / 70001 points (cuts: last 48 bytes, around every power of two and every MiB, every 4099th byte; short reads); every case is non-trivial",
             bounds: json!({"types": types.iter().map(|t| t.name()).collect::<Vec<_>>(), "files": units.len()}),
             exhaustive: true,
             assumptions: vec!["single faults, truncations and short reads: iteration is observed up to the first error; pairs of faults: the iteration goes on after an error, and only 'reported by the call in progress', 'nothing invented' and 'random access returns the record asked for' are judged".into()],
@@ -781,6 +906,13 @@ pub fn replay(v: &Value) -> Vec<(String, String)> {
         Some(c) => c,
         None => return vec![("bad-replay-file".into(), "cannot parse case".into())],
     };
+    if let Plan::PermCut { kind, len } = &case.plan {
+        let (fx, order) = permuted_fixture(case.ty, *kind);
+        return match catch(|| perm_cut_verdicts(&fx, &order, (*len).min(fx.shp.len()))) {
+            Ok(v) => v.into_iter().map(|(s, d)| (format!("{}:{}", case.ty.name(), s), d)).collect(),
+            Err(p) => vec![(format!("{}:{}", case.ty.name(), p.sig()), p.msg)],
+        };
+    }
     // re-run the whole fixture and keep the verdicts of this plan only
     let mut ctx = Ctx::new();
     run_fixture_ext(case.ty, &case.seq, case.refcodec, case.gapped, case.big, &mut ctx, &|| {});
